@@ -18,6 +18,20 @@ def one(data_spec):
     with mat:
         stats["programs"] += 1
         for s in U.walk(spec): stats["kind:" + s["k"]] += 1
+        # soundness of the generated source: Python itself resolves every annotation of every declared class (a text that names
+        # nothing would make the library fall back to "no usable hints" - and a check report that as a defect)
+        import typing
+        import inspect
+        for key, cls in mat.classes.items():
+            if not inspect.isclass(cls):
+                continue
+            stats["classes"] += 1
+            try:
+                typing.get_type_hints(cls, include_extras=True)
+            except Exception as ex:
+                stats["UNRESOLVABLE-HINTS"] += 1
+                if stats["printed-hints"] < 5:
+                    stats["printed-hints"] += 1; print("HINTS", key, repr(ex)[:200], mat.root_expr)
         try:
             vs = U.values(spec, mat)
         except U._Exhausted:
@@ -37,5 +51,5 @@ def one(data_spec):
                 U.plain_wire(spec, v, mat)
             except Exception as ex:
                 stats["WIRE-FAIL"] += 1; print("WIRE", repr(ex), mat.root_expr)
-core.drive(st.tuples(U.root_specs(max_depth=4, mods=3, adversarial=True), st.data()), one, n=int(sys.argv[1]) if len(sys.argv) > 1 else 400, seed=5)
+core.drive(st.tuples(U.root_specs(max_depth=4, mods=3, adversarial=True), st.data()), one, n=int(sys.argv[1]) if len(sys.argv) > 1 else 400, seed=int(sys.argv[2]) if len(sys.argv) > 2 else 5)
 for k, v in sorted(stats.items()): print(k, v)
